@@ -468,6 +468,8 @@ class Judge:
                     sig = "header-refused:empty-stem"
                 elif "Too many hosts" in info and len(tags) > 16384:
                     sig = "header-refused:too-many-hosts-in-range"
+                elif max([seg.count(",") + 1 for seg in re.findall(r"\[([^\]]*)\]", h)] or [0]) > 10240:
+                    sig = "header-refused:too-many-ranges"
                 else:
                     sig = "header-refused"
                 v.append(("offender", sig, "pdsh refuses the header `%s` dshbak printed: %s" % (h[:200], info)))
@@ -527,6 +529,10 @@ def case_json(c):
 
 
 def case_from_json(j):
+    if "input_hex" not in j and "odd_hosts" in j:
+        n = int(j["odd_hosts"])
+        return {"stream": "plain", "mode": "c", "hash_seed": 5, "recs": [("n%d" % i, "x") for i in range(1, 2 * n, 2)],
+                "input": "".join("n%d: x\n" % i for i in range(1, 2 * n, 2)).encode()}
     if "input_hex" not in j and "hosts" in j:        # the long-run case is stored by its size only
         n = int(j["hosts"])
         return {"stream": "plain", "mode": "c", "hash_seed": 3, "recs": [("n%d" % i, "x") for i in range(1, n + 1)],
@@ -662,7 +668,20 @@ def run(ctx):
                 recs = [("n%d" % i, "x") for i in range(1, nrun + 1)]
                 lc = {"stream": "plain", "mode": "c", "recs": recs, "hash_seed": 3,
                       "input": "".join("n%d: x\n" % i for i in range(1, nrun + 1)).encode()}
-                res = judge.judge([lc], use_model=(nrun == 16385 and (lim > 0 or not ctx.quick())))[0]
+                res = judge.judge([lc], use_model=(nrun == 16385 and not ctx.quick()))[0]
+                # quick tier: the header model alone (compress of the one group) against the real header
+                if ctx.quick() and res["real"]["rc"] == 0 and len(res["real"]["blocks"]) == 1:
+                    hdr = res["real"]["blocks"][0][0]
+                    ml = ctx.model("dshbak", "h %d %d %s\n" % (repaired, lim, ",".join(hx(t) for t, _ in recs)),
+                                   args=["model"])[0]
+                    groups = [bytes.fromhex(x).decode("latin-1") for x in ml.split("=")[0].split(",")]
+                    if not header_is_perm_of(hdr, groups):
+                        ctx.disagreement("dshbak header model vs scripts/dshbak (long run)",
+                                         "real `%s` model %r" % (hdr[:200], groups[:4]), {"longrun": nrun})
+                    st, hosts = judge.pdsh_cache.get(hdr, ("skip", None))
+                    if st == "ok" and len(hosts) != int(ml.split("=")[1]):
+                        ctx.disagreement("small expander vs pdsh (long run)", "pdsh %d hosts, model %s" %
+                                         (len(hosts), ml.split("=")[1]), {"longrun": nrun})
                 cov["evaluations"] += 1
                 dist["streams"]["longrun"] = dist["streams"].get("longrun", 0) + 1
                 for kind, sig, what in res["verdicts"]:
@@ -672,6 +691,20 @@ def run(ctx):
                                                  "real": [b[0] for b in res["real"]["blocks"]][:3]})
                     else:
                         ctx.disagreement("dshbak model vs scripts/dshbak: " + sig, what, {"longrun": nrun})
+        # F19-MANYRANGES: more than 10240 range elements under one prefix (hostlist.c MAX_RANGES)
+        if not ctx.replay:
+            for nr in ((10241,) if ctx.quick() else (10240, 10241)):
+                recs = [("n%d" % i, "x") for i in range(1, 2 * nr, 2)]
+                lc = {"stream": "plain", "mode": "c", "recs": recs, "hash_seed": 5,
+                      "input": "".join("%s: x\n" % t for t, _ in recs).encode()}
+                res = judge.judge([lc], use_model=False)[0]
+                cov["evaluations"] += 1
+                dist["streams"]["manyranges"] = dist["streams"].get("manyranges", 0) + 1
+                for kind, sig, what in res["verdicts"]:
+                    if kind == "offender":
+                        ctx.offender(sig, what[:300], {"case": {"mode": "c", "input": "n1: x, n3: x, .. n%d: x (%d odd numbers, "
+                                                                "identical bodies)" % (2 * nr - 1, nr), "odd_hosts": nr},
+                                                       "real": [b[0][:120] for b in res["real"]["blocks"]][:2]})
         dist["headers_expanded_by_pdsh"] = len(judge.pdsh_cache)
         dist["process_launches"] = judge.launches
         cov["distinct_nontrivial"] = len(distinct)
